@@ -369,7 +369,7 @@ class Check(FormulaCheck):
         rnd = self.rng(spec)
         self.e = hx.Env()
         G.install_refs(self.e.p)
-        known = set(documented_names()) | set(G.VARS) | set(PREDEF)
+        known = set(documented_names()) | set(G.VARS) | set(PREDEF) | {'EV'}      # EV: registered below by this campaign itself
         for _ in range(spec['n']):
             is_fn = rnd.random() < 0.6
             if is_fn:
